@@ -359,6 +359,27 @@ def gen_shaped_query(rng, cfg):
     return rng.choice(shapes)()
 
 
+def gen_phrase_from_docs(rng, docs, field="t"):
+    """A phrase that really occurs (with gaps) in one of the documents: 2-4 of its words in
+    order, at most ``slop`` apart - so that slop, repeated words and chaining matter."""
+    texts = [d[field].split() for d in docs if isinstance(d.get(field), str) and len(d[field].split()) >= 3]
+    if not texts:
+        return None
+    words = rng.choice(texts)
+    slop = rng.choice((1, 2, 2, 3))
+    n = rng.randint(2, min(4, len(words)))
+    i = rng.randrange(len(words))
+    picked = [words[i]]
+    while len(picked) < n:
+        i += rng.randint(1, slop)
+        if i >= len(words):
+            break
+        picked.append(words[i])
+    if len(picked) < 2:
+        return None
+    return ["phrase", field, picked, slop]
+
+
 def contains(spec, kinds):
     if spec[0] in kinds:
         return True
